@@ -58,6 +58,7 @@ pub enum Op {
     Donate { to: String, denom: String, amount: u128 },
     SetRedelegateBlocked { blocked: bool },
     SetFaults { swap: u8, oracle: u8 },
+    SetPrice { price: String },
 }
 
 #[derive(Clone, Copy, Debug, PartialEq, Serialize, Deserialize)]
@@ -136,6 +137,7 @@ impl Op {
             Op::Donate { .. } => "donate",
             Op::SetRedelegateBlocked { .. } => "set_redelegate_blocked",
             Op::SetFaults { .. } => "set_faults",
+            Op::SetPrice { .. } => "set_price",
         }
     }
 
@@ -148,6 +150,7 @@ impl Op {
                 | Op::Donate { .. }
                 | Op::SetRedelegateBlocked { .. }
                 | Op::SetFaults { .. }
+                | Op::SetPrice { .. }
         )
     }
 
@@ -315,6 +318,7 @@ impl Op {
                 w.swap_fault = fault_of(*swap);
                 w.oracle_fault = fault_of(*oracle);
             }
+            Op::SetPrice { price } => w.price = dec(price),
             _ => unreachable!(),
         }
         res
